@@ -10,6 +10,7 @@ import Sq.Machine
 import SqLemmas.DictRefine
 import SqLemmas.ListRefine
 import SqLemmas.SliceLemmas
+import SqProps.C13
 namespace SqProps.C14
 open Sq
 
@@ -258,6 +259,19 @@ theorem slice_no_longer_than_source (xs : List Val) (a b : Option Int) :
   · rw [h2, List.length_take, List.length_drop]; omega
   · intro ha hb; subst ha; subst hb
     rw [h2]; simp [sliceBound]
+
+/-- **reading `c[a:b]` from a list object** returns a NEW list object holding exactly that segment, and leaves every object
+    that existed before as it was (`HeapExt`): the slice is a copy of the spine, never a view -/
+theorem slice_read_returns_new_segment (s : BState) (a : Nat) (xs : List Val) (lo hi : Option Int)
+    (hg : s.heap.get? a = some (.list xs)) :
+    pyGetItem s (.ref a) (.slice lo hi none) =
+      .ok (allocList s ((xs.drop (sliceBound xs.length lo 0)).take (sliceBound xs.length hi xs.length - sliceBound xs.length lo 0))) ∧
+    SqProps.C13.HeapExt s.heap (allocList s ((xs.drop (sliceBound xs.length lo 0)).take
+      (sliceBound xs.length hi xs.length - sliceBound xs.length lo 0))).2.heap := by
+  obtain ⟨idx, h1, h2⟩ := slice_is_segment xs lo hi
+  refine ⟨?_, SqProps.C13.of_allocList rfl⟩
+  unfold pyGetItem
+  simp only [hg, h1, h2]
 
 /-- `[10, 20, 30, 40][-3:3]` = `[20, 30]`; `[1:100]` clamps; crossing bounds give `[]` -/
 example : pick [10, 20, 30, 40] ((sliceIndices 4 (some (-3)) (some 3) none).toOption.getD []) = [20, 30] ∧
